@@ -58,7 +58,7 @@ def tq(op, pat, CAP, pat2='', CAP2=2, ARG=0, POST=0, HLIST=0, OBS=15, timeout=30
     K, K2 = len(pat), len(pat2)
     cs = capset(op, size, cap, live, size2, cap2, ARG, POST)
     capmax = max(cs) if cs else 2
-    E = max(size + size2, size if op not in INSERTING else (live if size == cap else size) + 1) + 1 + POST   # most storage slots in use
+    E = max(size + size2, size, ((live if size == cap else size) + 1) if op in INSERTING else 0, 1) + POST   # most storage slots in use
     S = E + 1
     b = {'m_find|m_remove_at': K + K2 + 3, 'ref_cmp|IsEqual|IsLess|IsGreater': 3, 'Hash': 2,
          'find|generateHash|scan|ActualSize|resize|copyTable|Dispose|operator\\+=|Sort': S, 'SetToZero': 4 * capmax + 1,
@@ -74,12 +74,66 @@ def tq(op, pat, CAP, pat2='', CAP2=2, ARG=0, POST=0, HLIST=0, OBS=15, timeout=30
     return Query(name, 'C13_table.cpp', 'h_op', d, bounds=b, default_unwind=S, rec_bounds={'Sort': S}, default_rec=S,
                  stubs={ALLOC: 'c13_alloc'}, cflags=['-Dprivate=public', '-Dprotected=public'], timeout=timeout, mem_gb=8, backend=backend)
 
+def hq(LEN, ch):
+    return Query('hash/%s/len%d' % (ch, LEN), 'C13_table.cpp', 'h_hash', {'LEN': LEN, 'CHAR': ch},
+                 bounds={'Hash': LEN // 2 + 2, 'vf_buf.*': LEN + 1, 'h_hash': LEN + 1}, timeout=120, mem_gb=8)
+
+ARGOPS = ('RESERVE', 'RESIZE', 'EXPECT')
+HLIST_OPS = ('NONE', 'INSERT', 'INSERT_PTR', 'INSERT_CREF', 'REMOVE', 'REMOVE_INDEX', 'RENAME', 'MERGE_COPY', 'MERGE_MOVE', 'COMPRESS', 'SORT_DESC',
+             'COPY_CTOR', 'MOVE_ASSIGN')
+POST_OPS = (('CLEAR', 0), ('SORT_ASC', 0), ('COMPRESS', 0), ('RESIZE', 1), ('RESERVE', 3), ('COPY_CTOR', 0), ('MERGE_MOVE', 0), ('RENAME', 0),
+            ('REMOVE_INDEX', 0))
+
+def valid(pat, cap):
+    return simulate(pat, cap) is not None
+
+def op_queries(pat, cap, pat2, cap2, args, ops=None, **kw):
+    qs = []
+    for op in (ops or OPS):
+        if op in ARGOPS:
+            for a in args: qs.append(tq(op, pat, cap, ARG=a, **kw))
+        elif op in TWO: qs.append(tq(op, pat, cap, pat2, cap2, **kw))
+        else: qs.append(tq(op, pat, cap, **kw))
+    return qs
+
 def queries(tier):
     qs = []
-    for pat in ('GG', 'GR', 'GGR'):
-        for op in OPS:
-            if op in ('RESERVE', 'RESIZE', 'EXPECT'):
-                for a in (0, 1, 3): qs.append(tq(op, pat, 2, ARG=a))
-            elif op in TWO: qs.append(tq(op, pat, 2, 'GG', 2))
-            else: qs.append(tq(op, pat, 2))
+    if tier == 'quick':
+        for pat in ('GG', 'GGR'): qs += op_queries(pat, 2, 'GG', 2, (0, 1, 3))
+        qs += op_queries('GR', 2, 'GR', 2, (1,), ('NONE', 'INSERT', 'GET', 'REMOVE_INDEX', 'RENAME', 'MERGE_COPY', 'MERGE_MOVE', 'RESIZE', 'EXPECT',
+                                                 'COMPRESS', 'SORT_ASC', 'COPY_CTOR', 'COPY_ASSIGN'))
+        qs += op_queries('', 2, 'G', 2, (2,), ('NONE', 'INSERT', 'GET', 'REMOVE', 'REMOVE_INDEX', 'RENAME', 'MERGE_COPY', 'EXPECT', 'CLEAR', 'SORT_ASC',
+                                               'COPY_CTOR', 'MOVE_CTOR'))
+        qs += op_queries('GGG', 4, 'GR', 2, (2,), ('NONE', 'INSERT', 'REMOVE', 'RENAME', 'MERGE_COPY', 'RESIZE', 'SORT_DESC'))
+        for op, a in POST_OPS: qs.append(tq(op, 'GGR', 2, 'GG', 2, ARG=a, POST=1))
+        qs += op_queries('GGR', 2, 'GG', 2, (1,), HLIST_OPS, HLIST=1)
+        for n in range(0, 9): qs.append(hq(n, 'char'))
+        for n in (1, 4): qs += [hq(n, 'char16_t'), hq(n, 'char32_t')]
+    else:
+        pats = [''] + [p for n in (1, 2, 3) for p in _pats(n)]
+        for cap in (2, 4):
+            for pat in pats:
+                if valid(pat, cap): qs += op_queries(pat, cap, 'GGR' if cap == 2 else 'GG', 6 - cap, (0, 1, 2, 3, 5))
+        for pat in ('GGGG', 'GGRG', 'GGGR', 'GRGG', 'GGDR'):
+            for cap in (4, 8): qs += op_queries(pat, cap, 'GGR', 4, (0, 3, 5))
+        for pat in ('GGR', 'GRG', 'GGG'):
+            for op, a in POST_OPS: qs.append(tq(op, pat, 2, 'GG', 2, ARG=a, POST=1))
+        for pat in ('GG', 'GGR', 'GRG', 'GGG'): qs += op_queries(pat, 2, 'GG', 2, (0, 1, 3), HLIST_OPS + ('CLEAR', 'RESIZE', 'EXPECT', 'RESERVE'), HLIST=1)
+        for ch in ('char', 'char16_t', 'char32_t'):
+            for n in range(0, 9): qs.append(hq(n, ch))
+    return qs
+
+def _pats(n):
+    """construction patterns of n steps starting with an insert (anything else is a shorter history)"""
+    out = ['G']
+    for _ in range(n - 1): out = [p + c for p in out for c in 'GDR']
+    return [p for p in out if simulate(p, 2) is not None]
+
+def sort_queries(tier):
+    """HashTable::Sort then every observer (shared with C15's sort clause)"""
+    pats = ('GG', 'GGR', 'GGG') if tier == 'quick' else ('G', 'GG', 'GGR', 'GRG', 'GGG', 'GGGR', 'GGRG', 'GGGG')
+    qs = []
+    for pat in pats:
+        for op in ('SORT_ASC', 'SORT_DESC'):
+            qs.append(tq(op, pat, 4 if len(pat) > 3 else 2))
     return qs
